@@ -281,6 +281,10 @@ func (e *Engine) initIntrinsics() {
 			// 0: the harness cannot be replayed natively (its environment outcomes are uninterpreted); counterexamples
 			// are then confirmed by re-executing the harness in the engine with the model's concrete values
 			e.NoNative = v == 0
+		case "idshuffle":
+			// the peer-selection shuffles return their input order (ONE possible random outcome instead of any permutation;
+			// used by network compositions whose outcome does not depend on the order, stated as a bound there)
+			e.idShuffle = v != 0
 		case "bagchans":
 			// buffered channels created from now on deliver their queued elements in ANY order (independent senders)
 			e.bagChans = v != 0
@@ -1105,6 +1109,9 @@ func (e *Engine) sortSlice(x *IfaceV, less *FuncV, pos token.Pos) Value {
 // permute replaces the contents of a slice by an arbitrary permutation of them (fresh index variables).
 func (e *Engine) permute(s *SliceV, pos token.Pos) {
 	tb := e.tb
+	if e.idShuffle {
+		return
+	}
 	G0 := e.G
 	for _, al := range s.Alts {
 		if al.Arr == nil {
